@@ -136,35 +136,50 @@ fn tok_atom(rng: &mut Rng, v: &Vocab) -> Atom {
             let id = pick(rng);
             Atom::Toks(format!("<[{id}]>"), [id].into_iter().collect())
         }
-        2 | 3 => {
-            // list of ranges
-            let k = 1 + rng.below(3);
-            let mut parts = vec![];
-            let mut set = BTreeSet::new();
-            for _ in 0..k {
-                let a = pick(rng);
-                let b = (a + rng.below(40) as u32).min(n - 1);
-                if a == b {
-                    parts.push(format!("{a}"));
+        2..=4 => {
+            // list of ranges; later entries are often built from the previous one (adjacent single id,
+            // adjacent range, overlap extending by one, nested, duplicate), listed in random order
+            let negate = rng.chance(2, 5);
+            let k = 1 + rng.below(4);
+            let mut rs: Vec<(u32, u32)> = vec![];
+            for i in 0..k {
+                let r = if i > 0 && rng.chance(2, 3) {
+                    let (pa, pb) = rs[rng.below(rs.len())];
+                    match rng.below(7) {
+                        0 if pb + 1 < n => (pb + 1, pb + 1),
+                        1 if pb + 1 < n => (pb + 1, (pb + 1 + rng.below(5) as u32).min(n - 1)),
+                        2 if pb + 1 < n => (pa + rng.below((pb - pa + 1) as usize) as u32, pb + 1),
+                        3 if pa > 0 => (pa - 1, pa - 1),
+                        4 if pa > 0 => (pa.saturating_sub(1 + rng.below(4) as u32), pa - 1),
+                        5 => (pa, pb),
+                        _ => {
+                            let x = pa + rng.below((pb - pa + 1) as usize) as u32;
+                            (x, x + rng.below((pb - x + 1) as usize) as u32)
+                        }
+                    }
                 } else {
-                    parts.push(format!("{a}-{b}"));
-                }
-                set.extend(a..=b);
+                    let a = pick(rng);
+                    let w = if rng.chance(1, 3) { 0 } else { rng.below(if negate { 200 } else { 40 }) as u32 };
+                    (a, (a + w).min(n - 1))
+                };
+                rs.push(r);
             }
-            Atom::Toks(format!("<[{}]>", parts.join(",")), set)
-        }
-        4 => {
-            let k = 1 + rng.below(2);
-            let mut parts = vec![];
-            let mut ex = BTreeSet::new();
-            for _ in 0..k {
-                let a = pick(rng);
-                let b = (a + rng.below(200) as u32).min(n - 1);
-                parts.push(if a == b { format!("{a}") } else { format!("{a}-{b}") });
-                ex.extend(a..=b);
+            // random order
+            for i in (1..rs.len()).rev() {
+                let j = rng.below(i + 1);
+                rs.swap(i, j);
             }
-            let set: BTreeSet<u32> = (0..n).filter(|t| !ex.contains(t)).collect();
-            Atom::Toks(format!("<[^{}]>", parts.join(",")), set)
+            let parts: Vec<String> = rs.iter().map(|&(a, b)| if a == b { format!("{a}") } else { format!("{a}-{b}") }).collect();
+            let mut listed = BTreeSet::new();
+            for &(a, b) in &rs {
+                listed.extend(a..=b);
+            }
+            if negate {
+                let set: BTreeSet<u32> = (0..n).filter(|t| !listed.contains(t)).collect();
+                Atom::Toks(format!("<[^{}]>", parts.join(",")), set)
+            } else {
+                Atom::Toks(format!("<[{}]>", parts.join(",")), listed)
+            }
         }
         _ => Atom::Toks("<[*]>".into(), (0..n).collect()),
     }
